@@ -229,6 +229,13 @@ VARIANTS = [
          old="        let max_subchunks_to_process = max_available_frames / self.fft_size_in;", new="        let max_subchunks_to_process = max_available_frames / (self.fft_size_in - self.fft_size_in % 2);"),
     dict(property="C03", name="make-sincs-range-inclusive", file=SINCRS, expect="R-C03-arith/sinc::make_sincs/sub",
          old="for n in 0..factor {", new="for n in 0..=factor {"),
+    dict(property="C04", name="revert-fix-max-association", revert_commit="44bbf0c", expect="R-C04-next-le-max"),
+    dict(property="C04", name="next-uses-max-of-ratios-plus-one", file=FAST, expect="R-C04-next-le-max/FastFixedIn/output",
+         old="        (self.chunk_size as f64 * (0.5 * self.resample_ratio + 0.5 * self.target_ratio) + 10.0)\n            as usize\n    }",
+         new="        (self.chunk_size as f64 * (0.5 * self.resample_ratio + 0.5 * self.target_ratio) + 11.0)\n            as usize\n    }"),
+    dict(property="C04", name="fft-in-max-forgets-saved", file=SYN, expect="R-C04-next-le-max/FftFixedIn/output",
+         old="        let max_stored_frames = self.fft_size_in - 1;\n        let max_available_frames = max_stored_frames + self.chunk_size_in;",
+         new="        let max_available_frames = self.chunk_size_in;"),
     dict(property="C12", name="revert-fix-ratio-bounds", revert_commit="30d33be", expect="bare-argument"),
     dict(property="C13", name="revert-fix-mask-length", revert_commit="00a5a33", expect="R-C13-mask"),
     dict(property="C10", name="revert-fix-reset-needed", revert_commit="b901fb3", expect="SincFixedOut.needed_input_size"),
